@@ -249,6 +249,50 @@ impl SpillPoolSink {
         // Write batch to current file - lock only the specific file
         let mut file_shared = write_file.lock();
 
+        let max_file_size_reached = match Self::append_to_file(
+            &mut file_shared,
+            batch,
+            batch_size,
+            self.max_file_size_bytes,
+        ) {
+            Ok(max_file_size_reached) => max_file_size_reached,
+            Err(e) => {
+                // `write_file` is not placed back in the `open_write_files` queue, so no
+                // writer (not even the last one on drop) would ever finish it. Mark it as
+                // finished so the reader skips to the files written afterwards instead of
+                // waiting on this one forever.
+                if let Some(mut writer) = file_shared.writer.take() {
+                    // Ignore errors - we are already failing
+                    let _ = writer.finish();
+                }
+                file_shared.writer_finished = true;
+                file_shared.wake();
+                return Err(e);
+            }
+        };
+
+        if max_file_size_reached {
+            // Don't place `write_file` back in the `open_write_files` queue so we don't
+            // try writing to it again
+        } else {
+            // Release file lock
+            drop(file_shared);
+            // Put back the current file for further writing
+            let mut shared = self.shared.lock();
+            shared.open_write_files.push_back(write_file);
+        }
+
+        Ok(())
+    }
+
+    /// Appends `batch` to the file and finishes the file if it grew past
+    /// `max_file_size_bytes`. Returns whether the file was finished.
+    fn append_to_file(
+        file_shared: &mut ActiveSpillFileShared,
+        batch: &RecordBatch,
+        batch_size: usize,
+        max_file_size_bytes: usize,
+    ) -> Result<bool> {
         // Append the batch
         if let Some(ref mut writer) = file_shared.writer {
             writer.append_batch(batch)?;
@@ -261,7 +305,7 @@ impl SpillPoolSink {
         // Wake reader waiting on this specific file
         file_shared.wake();
 
-        let max_file_size_reached = file_shared.estimated_size > self.max_file_size_bytes;
+        let max_file_size_reached = file_shared.estimated_size > max_file_size_bytes;
 
         if max_file_size_reached {
             // Finish the IPC writer
@@ -272,18 +316,9 @@ impl SpillPoolSink {
             file_shared.writer_finished = true;
             // Wake reader waiting on this file (it's now finished)
             file_shared.wake();
-
-            // Don't place `write_file` back in the `open_write_files` queue so we don't
-            // try writing to it again
-        } else {
-            // Release file lock
-            drop(file_shared);
-            // Put back the current file for further writing
-            let mut shared = self.shared.lock();
-            shared.open_write_files.push_back(write_file);
         }
 
-        Ok(())
+        Ok(max_file_size_reached)
     }
 }
 
